@@ -32,7 +32,7 @@ def scratch_mode(d, checks):
         results = {}
         for c in checks:
             t0 = time.time()
-            env = dict(os.environ, VT_SUMMARY='0', VERIF_REPO=tmp)
+            env = dict(os.environ, VT_SUMMARY='0', VERIF_REPO=tmp, VT_EVIDENCE_DIR=os.path.join(tmp, '.vt-evidence'))
             p = subprocess.run([os.path.join(VERIF, 'check'), c, 'quick'], capture_output=True, text=True, cwd=VERIF, env=env)
             lines = [l for l in p.stdout.splitlines() if l.startswith('VIOLATION') or l.startswith('  what')]
             results[c] = {'exit': p.returncode, 'wall_s': round(time.time() - t0, 1), 'mode': 'scratch-copy',
@@ -43,7 +43,6 @@ def scratch_mode(d, checks):
                 print('   ', results[c]['first_violation'])
     finally:
         shutil.rmtree(tmp, ignore_errors=True)
-        sh('git', '-C', VERIF, 'checkout', '--', 'evidence')
     out = os.path.join(d, 'result.json')
     prev = json.load(open(out)) if os.path.exists(out) else {}
     prev.update(results)
